@@ -130,7 +130,7 @@ func ExhaustiveC11(r *rand.Rand, k int) []*Case {
 	plugins := Plugins("derive", nil)
 	pfx := map[string]string{"equal": "deriveEqual", "hash": "deriveHash"}
 	var out []*Case
-	enum := func(stream string, opts []opt, keep func([]opt) bool) {
+	enum := func(stream string, opts []opt, k int, keep func([]opt) bool) {
 		var rec func(cur []opt)
 		rec = func(cur []opt) {
 			if len(cur) > 0 && keep(cur) {
@@ -165,8 +165,12 @@ func ExhaustiveC11(r *rand.Rand, k int) []*Case {
 			optsA = append(optsA, opt{"equal", n, t, 2}, opt{"equal", n, t, 1})
 		}
 	}
-	enum("exhaustive", opts, func([]opt) bool { return true })
-	enum("exhaustive-arity", optsA, func(cur []opt) bool {
+	ka := k
+	if ka > 3 { // the arity stream stays at 3 calls in the thorough tier (time budget)
+		ka = 3
+	}
+	enum("exhaustive", opts, k, func([]opt) bool { return true })
+	enum("exhaustive-arity", optsA, ka, func(cur []opt) bool {
 		for _, o := range cur {
 			if o.arity == 1 {
 				return true
